@@ -239,3 +239,35 @@ func (p *PairCoverage) Report() map[string]any {
 	}
 	return map[string]any{"dimensions": len(dims), "values_seen": vals, "pairs_covered": len(p.pairs), "pairs_possible_over_seen_values": possible}
 }
+
+// respellTagged writes the separator between `!tagged` and the tag name of every argument of the configuration as other white
+// space the documented form `!tagged\s+<tag>` allows (line feed, CR LF, form feed, tab, several of them): the request stays the
+// same request, whatever a resolver, validator or graph builder does with the text (round 13, S247).
+func respellTagged(c *cfg.Config, salt int) {
+	seps := []string{"\n", "\r\n", "\f", "\t", " \n ", "  ", "\n\n"}
+	k := salt
+	fix := func(vs []cfg.Val) {
+		for i := range vs {
+			if vs[i].Kind == "str" && strings.HasPrefix(vs[i].S, "!tagged ") {
+				vs[i].S = "!tagged" + seps[k%len(seps)] + strings.TrimLeft(vs[i].S[len("!tagged "):], " ")
+				k++
+			}
+		}
+	}
+	for i := range c.Services {
+		s := &c.Services[i]
+		fix(s.Args)
+		for j := range s.Calls {
+			fix(s.Calls[j].Args)
+		}
+		for j := range s.Fields {
+			if v := &s.Fields[j].V; v.Kind == "str" && strings.HasPrefix(v.S, "!tagged ") {
+				v.S = "!tagged" + seps[k%len(seps)] + strings.TrimLeft(v.S[len("!tagged "):], " ")
+				k++
+			}
+		}
+	}
+	for i := range c.Decorators {
+		fix(c.Decorators[i].Args)
+	}
+}
